@@ -1,8 +1,98 @@
-/- line-protocol handlers for the C06 models (stub: nothing modelled yet) -/
-import FontVerif.Model.Base
+/- line-protocol handlers for the C06 models (Model/Sfnt.lean) -/
+import FontVerif.Model.Sfnt
 namespace FontVerif.Drv.C06
-open FontVerif
+open FontVerif FontVerif.Sfnt
 
-def handle (_cmd : String) (_args : List String) : Option String := none
+/-- a tag is written as exactly 8 hex digits -/
+def parseTag? (s : String) : Option Nat :=
+  if s.length ≠ 8 then none else
+  match parseHex? s with
+  | some [a, b, c, d] => some (be32 a b c d)
+  | _ => none
+
+def tagHex (t : Nat) : String := toHex (be4 t)
+
+/-- `A<tag8>:<hex>` = add_raw, `C<hex>` = copy_missing_tables(FontRef::new(hex)) -/
+def parseOp? (s : String) : Option Op :=
+  match s.toList with
+  | 'A' :: rest =>
+    match (String.ofList rest).splitOn ":" with
+    | [t, d] =>
+      match parseTag? t, parseHex? d with
+      | some t, some d => some (.add t d)
+      | _, _ => none
+    | _ => none
+  | 'C' :: rest =>
+    match parseHex? (String.ofList rest) with
+    | some d => some (.copy d)
+    | none => none
+  | _ => none
+
+def parseOps? (ss : List String) : Option (List Op) := ss.mapM parseOp?
+
+def optHex : Option Bytes → String
+  | none => "none"
+  | some d => toHex d
+
+def recStr (r : Rec) : String := s!"{tagHex r.tag}:{r.checksum}:{r.offset}:{r.length}"
+
+def joinStrs (xs : List String) : String :=
+  if xs.isEmpty then "-" else " ".intercalate xs
+
+def handle (cmd : String) (args : List String) : Option String :=
+  match cmd with
+  | "sfnt.build" =>
+    match parseOps? args with
+    | none => none
+    | some ops =>
+      match build (runOps ops) with
+      | none => some "trap"
+      | some bs => some (toHex bs)
+  | "sfnt.order" =>
+    match parseOps? args with
+    | none => none
+    | some ops => some (joinStrs ((orderedTags (runOps ops)).map tagHex))
+  | "sfnt.keys" =>
+    -- the builder's map after the history: `tag:len` ascending
+    match parseOps? args with
+    | none => none
+    | some ops => some (joinStrs ((runOps ops).map (fun e => s!"{tagHex e.1}:{e.2.length}")))
+  | "sfnt.checksum" =>
+    match args with
+    | [h] => (parseHex? h).map (fun bs => toString (checksum bs))
+    | _ => none
+  | "sfnt.searchrange" =>
+    match parseNats? args with
+    | some [n, sz] =>
+      match searchRange n sz with
+      | none => some "trap"
+      | some (a, b, c) => some s!"{a} {b} {c}"
+    | _ => none
+  | "sfnt.open" =>
+    match args with
+    | [h] =>
+      match parseHex? h with
+      | none => none
+      | some bs =>
+        match openFont bs with
+        | .error .outOfBounds => some "err:OutOfBounds"
+        | .error .invalidSfnt => some "err:InvalidSfnt"
+        | .ok f => some (s!"ok {f.numTables} " ++ joinStrs ((records f).map recStr))
+    | _ => none
+  | "sfnt.read" =>
+    -- sfnt.read <fonthex> <tag8>… : table_data for each tag
+    match args with
+    | h :: tags =>
+      match parseHex? h, tags.mapM parseTag? with
+      | some bs, some ts =>
+        match openFont bs with
+        | .error .outOfBounds => some "err:OutOfBounds"
+        | .error .invalidSfnt => some "err:InvalidSfnt"
+        | .ok f =>
+          let recs := records f
+          some (joinStrs (ts.map (fun t => optHex (tableDataIn recs f.data t))))
+      | _, _ => none
+    | _ => none
+  | _ => none
 
 end FontVerif.Drv.C06
